@@ -426,6 +426,7 @@ pub fn new_runner(seed: u64, name: &str, shard: u64, cases: u32) -> TestRunner {
         max_shrink_iters: 20000,
         max_shrink_time: 20_000,
         max_global_rejects: 1_000_000,
+        max_local_rejects: 10_000_000,
         ..Config::default()
     };
     TestRunner::new_with_rng(cfg, TestRng::from_seed(RngAlgorithm::ChaCha, &derive_seed(seed, name, shard)))
